@@ -8,7 +8,7 @@ theorem wf_bulkArrDef (xs : List Bytes) : WF (bulkArr xs) := wf_bulkArr xs
 
 theorem lrangePure_wf (l : List Bytes) (s e : Int) (r : Res) (h : lrangePure l s e = .done r) : Res.WFok r := by
   unfold lrangePure at h
-  extract_lets len st e1 e2 at h
+  extract_lets len st0 st e1 e2 at h
   split at h
   · injection h with h; subst h; exact wf_emptyArr
   · split at h
